@@ -141,9 +141,9 @@ Qed.
    to that challenge under the method fixed at authorization time *)
 Theorem pkce_binding cfg cls h1 a h2 auth redirect v vh tampered :
   let s1 := run cfg (state0 cls) h1 in
-  az_rtype a = RCode -> o_err (snd (authorize cfg s1 a)) = "" -> az_challenge a <> "" ->
+  az_rtype a <> RToken -> o_err (snd (authorize cfg s1 a)) = "" -> az_challenge a <> "" ->
   let s2 := run cfg (fst (authorize cfg s1 a)) h2 in
-  let code := {| p_ref := CRef (List.length (log s1)); p_tampered := tampered |} in
+  let code := {| p_ref := CRef (List.length (log s1) + code_pos a); p_tampered := tampered |} in
   o_err (snd (redeem cfg s2 auth code redirect v vh)) = "" ->
   verifier_well_formed v /\
   (if String.eqb (az_method a) "S256" then vh = az_challenge a else v = az_challenge a) /\
@@ -151,7 +151,7 @@ Theorem pkce_binding cfg cls h1 a h2 auth redirect v vh tampered :
 Proof.
   intros s1 Hrt Hok Hch s2 code Hred.
   assert (I1 : Inv s1) by apply Inv_reachable.
-  destruct (authorize_stores_challenge cfg s1 a Hrt Hok) as [cl [Hcl [k [Hlog [_ Hstore]]]]].
+  destruct (authorize_code_stores_challenge cfg s1 a Hrt Hok) as [cl [Hcl [_ [k [Hlog [_ Hstore]]]]]].
   destruct Hstore as [pr [Hp [Hc [Hm Hrcl]]]]; [intros [H _]; contradiction|].
   set (sa := fst (authorize cfg s1 a)) in *.
   assert (Ia : Inv sa) by (unfold sa; change (authorize cfg s1 a) with (step cfg s1 (OAuthorize a)); now apply Inv_step).
